@@ -158,3 +158,9 @@ func vpYield()        {}
 // vpMaxAllocSize: the largest allocation made from a symbolic (file-borne) size on this path.
 // Natively unknown: 0.
 func vpMaxAllocSize() int { return 0 }
+
+// Strict (non-short-circuit) boolean connectives: under the executor they build one term instead
+// of forking the path.
+func vpOr(a, b bool) bool      { return a || b }
+func vpAnd(a, b bool) bool     { return a && b }
+func vpImplies(a, b bool) bool { return !a || b }
